@@ -74,6 +74,14 @@ def sExitWrap (S : Sem St) : SR St → SR St
   | .throw v2 σ2 => .throw v2 (S.catchExit σ2)
   | .fuel => .fuel
 
+/-- §12.10 step 8: "Set the running execution context's LexicalEnvironment to oldEnv" — whatever C is,
+    "no matter how control leaves the embedded Statement, whether normally or by some form of abrupt
+    completion or exception" -/
+def sWithExitWrap (S : Sem St) : SR St → SR St
+  | .ok c' σ2 => .ok c' (S.withExit σ2)
+  | .throw v2 σ2 => .throw v2 (S.withExit σ2)
+  | .fuel => .fuel
+
 /-- §12.14 Catch: run the catch block in a new environment binding the parameter -/
 def sCatchPhase (S : Sem St) (hasCatch : Bool) (param : String) (runC : St → SR St) : SR St → SR St
   | .throw v σ1 => if hasCatch then sExitWrap S (runC (S.catchEnter param v σ1)) else .throw v σ1
@@ -154,6 +162,13 @@ def specS (S : Sem St) : Nat → List String → Stmt → St → SR St
     | .tryS b hasCatch param c hasFin f =>                               -- §12.14
       sFinallyPhase hasFin (fun σ2 => specList S n f σ2)
         (sCatchPhase S hasCatch param (fun σ1 => specList S n c σ1) (specList S n b σ))
+    | .withS e b =>                                                      -- §12.10
+      match S.evalE e σ with
+      | .throw v σ' => .throw v σ'
+      | .ok v σ' =>
+        match S.withEnter v σ' with                                      -- steps 2–5: ToObject, NewObjectEnvironment
+        | .throw t σ2 => .throw t σ2
+        | .ok _ σ2 => sWithExitWrap S (specS S n [] b σ2)                -- steps 6–9
     | .switchS d cs =>                                                   -- §12.11
       match S.evalE d σ with
       | .throw v σ' => .throw v σ'
